@@ -57,6 +57,8 @@ EXEMPT = {
     ("kanata_state_machine::kanata::output_logic::zippychord::ZchDynamicState", "zchd_characters_to_delete_on_next_activation"): "changed by key presses only (event-driven)",
     ("kanata_state_machine::kanata::output_logic::zippychord::ZchDynamicState", "zchd_prior_activation_output_count"): "changed by key presses only (event-driven)",
     ("kanata_state_machine::kanata::output_logic::zippychord::ZchDynamicState", "zchd_same_hold_activation_count"): "changed by key presses only (event-driven)",
+    ("kanata_state_machine::kanata::output_logic::zippychord::ZchDynamicState", "zchd_prior_activation"): "changed by key presses only (event-driven)",
+    ("kanata_state_machine::kanata::output_logic::zippychord::ZchDynamicState", "zchd_prioritized_chords"): "changed by key presses only (event-driven)",
 }
 
 
